@@ -195,7 +195,7 @@ def run_spec(ctx, src="e2.cxx", exe="e2", prefix_filter="", flags="", per_timeou
 
     def emit_one(k):
         try:
-            q = subprocess.run([binp, "--emit", vcdir, names[k], "exact", "index.%d.json" % k], capture_output=True, text=True, timeout=3600)
+            q = subprocess.run([binp, "--emit", vcdir, names[k], "exact", "index.%d.json" % k], capture_output=True, text=True, timeout=3600 if ctx.thorough else 900)
             return (q.returncode, (q.stderr or q.stdout)[-500:])
         except subprocess.TimeoutExpired:
             return (124, "timeout while exploring " + names[k])
